@@ -200,7 +200,18 @@ class _GenInterp(object):
         raise _Undecided("sequence %s" % unparse(r))
 
     def nsdict(self, e):
+        if isinstance(e, ast.Name) and e.id in getattr(self, "preloop", ()):
+            return None     # one namespace object built before the loop and handed to every exec: shared, not a copy
         r = self.R(e)
+        # a copy of a namespace built once: dict(base) / base.copy() / dict(base, extra=..)
+        if isinstance(r, ast.Call) and unparse(r.func) == "dict" and len(r.args) == 1:
+            base = self.nsdict(r.args[0])
+            if base is not None:
+                base = dict(base)
+                base.update({k.arg: unparse(k.value) for k in r.keywords if k.arg})
+                return base
+        if isinstance(r, ast.Call) and isinstance(r.func, ast.Attribute) and r.func.attr == "copy" and not r.args:
+            return self.nsdict(r.func.value)
         if isinstance(r, ast.Call) and unparse(r.func) == "dict" and not r.args:
             return {k.arg: unparse(k.value) for k in r.keywords}
         if isinstance(r, ast.Dict):
@@ -223,6 +234,12 @@ class _GenInterp(object):
                 for t in st.targets:
                     if isinstance(t, ast.Name):
                         self.env[t.id] = val
+                        # another name for an object built before the loop (no copy) is that same object
+                        pre_ = set(getattr(self, "preloop", ()))
+                        if isinstance(st.value, ast.Name) and st.value.id in pre_:
+                            self.preloop = pre_ | {t.id}
+                        elif t.id in pre_:
+                            self.preloop = pre_ - {t.id}
                     elif isinstance(t, (ast.Tuple, ast.List)) and isinstance(val, (ast.Tuple, ast.List)) \
                             and len(t.elts) == len(val.elts) and all(isinstance(x, ast.Name) for x in t.elts):
                         for x, v in zip(t.elts, val.elts):
@@ -390,7 +407,14 @@ def run(chk, repo):
     S = "%s['names'][0]" % entry
     for distinct, present in ((True, True), (True, False), (False, True)):
         try:
-            ev = _GenInterp(entry, distinct, present).run(loop[0].body)
+            gi_ = _GenInterp(entry, distinct, present)
+            # what the function binds once before the table loop (a namespace built once, a hoisted constant)
+            gb_ = docstring_free(gen.body)
+            for st_ in gb_[:gb_.index(loop[0])]:
+                if isinstance(st_, ast.Assign) and len(st_.targets) == 1 and isinstance(st_.targets[0], ast.Name):
+                    gi_.env[st_.targets[0].id] = gi_.R(st_.value)
+                    gi_.preloop = set(getattr(gi_, "preloop", ())) | {st_.targets[0].id}
+            ev = gi_.run(loop[0].body)
         except _Undecided as ex:
             raise AnalysisError("_generate_window_strategies not interpretable (%s)" % ex)
         tag = "[distinct=%s%s] " % (distinct, "" if present else ", key absent")
